@@ -1020,7 +1020,8 @@ def dir_history_scope(res, pid, rng, tier):
                 a0 = int(ipaddress.IPv4Address(body.split()[2]))
                 want = spec_images(cfg4, [a0])[0]
                 got = outs["a.cfg"].split()[2]
-                if a0 not in SPEC_MASKS and got != str(ipaddress.IPv4Address(want)):
+                in_nets = any(ipaddress.IPv4Address(a0) in ipaddress.ip_network(n_) for n_ in ("44.1.0.0/16", "10.0.0.0/8", "192.168.0.0/16"))
+                if a0 not in SPEC_MASKS and not in_nets and got != str(ipaddress.IPv4Address(want)):
                     fails.append({"kind": "a map file left by an earlier run (other salt) changed this run's mapping", "salt": salt,
                                   "address": body.split()[2], "output": got, "expected": str(ipaddress.IPv4Address(want))})
         finally:
